@@ -459,3 +459,79 @@ func Cyclic(v interface{}) bool {
 	}
 	return walk(v, 0)
 }
+
+// Alias makes the value a DAG: up to n times, a map S that already occurs in root is stored a second time - the same Go
+// map, not a copy - in another map slot or list position outside S (never inside S: no cycles). Every tree-shaped reading
+// of the value (what is stored under which path) is what a reference walking it computes; keys for which skipKey holds are never overwritten; code that keys on
+// the identity of a map (visited sets, caches) sees the same object twice. Returns how many aliases were made.
+func Alias(r *rand.Rand, root M, n int, skipKey func(string) bool) int {
+	made := 0
+	for ; n > 0; n-- {
+		var maps []M
+		type slot struct {
+			m M
+			k string
+			l L
+			i int
+		}
+		var slots []slot
+		var walk func(v interface{})
+		walk = func(v interface{}) {
+			switch t := v.(type) {
+			case M:
+				maps = append(maps, t)
+				for _, k := range Keys(t) {
+					if skipKey == nil || !skipKey(k) {
+						slots = append(slots, slot{m: t, k: k})
+					}
+					walk(t[k])
+				}
+			case L:
+				for i, e := range t {
+					if _, ok := e.(M); ok {
+						slots = append(slots, slot{l: t, i: i})
+					}
+					walk(e)
+				}
+			}
+		}
+		walk(root)
+		if len(maps) < 2 || len(slots) == 0 || len(maps) > 4000 {
+			return made
+		}
+		s := maps[1+r.Intn(len(maps)-1)] // not the root
+		inside := map[uintptr]bool{}
+		var mark func(v interface{})
+		mark = func(v interface{}) {
+			switch t := v.(type) {
+			case M:
+				inside[reflect.ValueOf(t).Pointer()] = true
+				for _, e := range t {
+					mark(e)
+				}
+			case L:
+				if len(t) > 0 {
+					inside[reflect.ValueOf(t).Pointer()] = true
+				}
+				for _, e := range t {
+					mark(e)
+				}
+			}
+		}
+		mark(s)
+		d := slots[r.Intn(len(slots))]
+		if d.m != nil {
+			if inside[reflect.ValueOf(d.m).Pointer()] {
+				continue
+			}
+			d.m[d.k] = s
+		} else {
+			if inside[reflect.ValueOf(d.l).Pointer()] {
+				continue
+			}
+			d.l[d.i] = s
+		}
+		made++
+	}
+	return made
+}
